@@ -126,29 +126,65 @@ func fetchRaw(t oras.GraphTarget, d ocispec.Descriptor) ([]byte, error) {
 // manifest). The three manifests have the same media type and the same size:
 // they differ in the digest only.
 func pushSubjects(t oras.GraphTarget) ([3]ocispec.Descriptor, error) {
-	var out [3]ocispec.Descriptor
-	for i := 1; i <= 3; i++ {
-		cfg := []byte(fmt.Sprintf(`{"architecture":"amd64","os":"linux","rootfs":{"type":"layers","diff_ids":[]},"config":{"Labels":{"n":"%d"}}}`, i))
-		layer := []byte(fmt.Sprintf("layer-of-subject-%d", i))
-		cd := descOf("application/vnd.oci.image.config.v1+json", cfg)
-		ld := descOf("application/vnd.oci.image.layer.v1.tar", layer)
-		if err := pushRaw(t, cd, cfg); err != nil {
+	out, blobs := subjectContent()
+	for _, b := range blobs {
+		if err := pushRaw(t, b.d, b.b); err != nil {
 			return out, err
 		}
-		if err := pushRaw(t, ld, layer); err != nil {
-			return out, err
-		}
-		mb, _ := json.Marshal(imageManifest{SchemaVersion: 2, MediaType: mtImage, Config: cd, Layers: []ocispec.Descriptor{ld}})
-		md := descOf(mtImage, mb)
-		if err := pushRaw(t, md, mb); err != nil {
-			return out, err
-		}
-		out[i-1] = md
 	}
 	if out[0].Size != out[1].Size || out[1].Size != out[2].Size {
 		return out, fmt.Errorf("subjects must share size")
 	}
 	return out, nil
+}
+
+type blobContent struct {
+	d ocispec.Descriptor
+	b []byte
+}
+
+// subjectContent returns the three subject manifests and everything they consist of, in push order.
+func subjectContent() (out [3]ocispec.Descriptor, blobs []blobContent) {
+	for i := 1; i <= 3; i++ {
+		cfg := []byte(fmt.Sprintf(`{"architecture":"amd64","os":"linux","rootfs":{"type":"layers","diff_ids":[]},"config":{"Labels":{"n":"%d"}}}`, i))
+		layer := []byte(fmt.Sprintf("layer-of-subject-%d", i))
+		cd := descOf("application/vnd.oci.image.config.v1+json", cfg)
+		ld := descOf("application/vnd.oci.image.layer.v1.tar", layer)
+		mb, _ := json.Marshal(imageManifest{SchemaVersion: 2, MediaType: mtImage, Config: cd, Layers: []ocispec.Descriptor{ld}})
+		md := descOf(mtImage, mb)
+		blobs = append(blobs, blobContent{cd, cfg}, blobContent{ld, layer}, blobContent{md, mb})
+		out[i-1] = md
+	}
+	return out, blobs
+}
+
+// writeNestedLayout writes, file by file, an OCI layout as multi-platform tools write it: the three subjects
+// are the children of one image index and index.json lists only that index - the subjects are present in
+// the layout without being roots of index.json.
+func writeNestedLayout(dir string) error {
+	subj, blobs := subjectContent()
+	var children []ocispec.Descriptor
+	for i, d := range subj {
+		d.Platform = &ocispec.Platform{OS: "linux", Architecture: []string{"amd64", "arm64", "s390x"}[i]}
+		children = append(children, d)
+	}
+	ib, _ := json.Marshal(indexManifest{SchemaVersion: 2, MediaType: mtIndex, Manifests: children})
+	id := descOf(mtIndex, ib)
+	blobs = append(blobs, blobContent{id, ib})
+	if err := os.MkdirAll(filepath.Join(dir, "blobs", "sha256"), 0o755); err != nil {
+		return err
+	}
+	for _, b := range blobs {
+		if err := os.WriteFile(filepath.Join(dir, "blobs", "sha256", b.d.Digest.Encoded()), b.b, 0o644); err != nil {
+			return err
+		}
+	}
+	if err := os.WriteFile(filepath.Join(dir, "oci-layout"), []byte(`{"imageLayoutVersion":"1.0.0"}`), 0o644); err != nil {
+		return err
+	}
+	id.Annotations = map[string]string{"org.opencontainers.image.ref.name": "multi"}
+	top, _ := json.Marshal(indexManifest{SchemaVersion: 2, Manifests: []ocispec.Descriptor{id}})
+	return os.WriteFile(filepath.Join(dir, "index.json"), top, 0o644)
 }
 
 // overBy is by how much a really oversized object exceeds its cap: well beyond cap+1, so that an
@@ -330,9 +366,14 @@ func newWorld(kind, dir string) (*world, error) {
 		loose = &looseTarget{GraphTarget: memory.New(), alias: map[digest.Digest][]ocispec.Descriptor{}}
 		w.target = loose
 		w.repo = registry.NewRepository(loose)
-	case "disk":
+	case "disk", "nested":
 		if err := os.MkdirAll(dir, 0o755); err != nil {
 			return nil, err
+		}
+		if kind == "nested" {
+			if err := writeNestedLayout(dir); err != nil {
+				return nil, err
+			}
 		}
 		repo, err := registry.NewOCIRepository(dir, registry.RepositoryOptions{})
 		if err != nil {
@@ -374,6 +415,9 @@ func newWorld(kind, dir string) (*world, error) {
 		full := s[i]
 		full.Annotations = map[string]string{"org.opencontainers.image.created": "2020-01-01T00:00:00Z", "example.org/tagged": "yes"}
 		full.ArtifactType = "application/vnd.oci.image.config.v1+json"
+		if kind == "nested" {
+			continue // tagging would make the subject a root of index.json
+		}
 		if err := w.target.Tag(ctx, full, fmt.Sprintf("s%d", i+1)); err != nil {
 			return nil, err
 		}
@@ -1079,7 +1123,8 @@ func runHistory(kind string, ops []string, few bool) (vs []viol, outcomes map[st
 	label := kind
 	kind = strings.TrimSuffix(kind, "+observed")
 	dir := ""
-	if kind == "disk" {
+	onDisk := kind == "disk" || kind == "nested"
+	if onDisk {
 		dir = scratchDir()
 	}
 	w, err := newWorld(kind, dir)
@@ -1124,7 +1169,7 @@ func runHistory(kind string, ops []string, few bool) (vs []viol, outcomes map[st
 		outcomes[k] += n
 	}
 	merge(w.check(w.repo, w.target, "live", outcomes))
-	if kind == "disk" {
+	if onDisk {
 		repo2, err := registry.NewOCIRepository(dir, registry.RepositoryOptions{})
 		if err != nil {
 			// oras-go refuses to load a layout that holds a referrer whose subject names an existing
@@ -1306,6 +1351,26 @@ func retryHistories(depth int) [][]string {
 	return out
 }
 
+// pileHistories: many signatures on ONE artifact (what a listing does may depend on how many there are):
+// for every subject, 1..n pushes in a row, formats alternating. Some steps push annotations that oras-go
+// refuses, so the numbers of stored signatures reached are 1..about 2n/3, every one of them.
+func pileHistories(n int) [][]string {
+	var out [][]string
+	for si := 1; si <= 3; si++ {
+		var h []string
+		for k := 0; k < n; k++ {
+			h = append(h, fmt.Sprintf("push:%d:%s", si, []string{"jws", "cose"}[k%2]))
+			out = append(out, append([]string(nil), h...))
+		}
+	}
+	return out
+}
+
+func explorePiles(r *hx.Run, kind string, n int) {
+	exploreLevels(r, kind+"#piles", -1, pileHistories(n))
+	r.Extra["piles_"+kind] = fmt.Sprintf("for each subject, 1..%d pushes in a row on that one subject", n)
+}
+
 func exploreRetry(r *hx.Run, kind string, depth int) {
 	exploreLevels(r, kind+"#retry", -1, retryHistories(depth))
 	r.Extra["retry_"+kind] = fmt.Sprintf("every sequence of length <= %d over the 11 operations + push-invalid (fails after the blob was stored) + 2 push-again (envelope bytes already in the layout) that contains a push-again", depth)
@@ -1409,10 +1474,16 @@ type hostileCase struct {
 	Name         string `json:"name"`
 	Format       string `json:"format"` // image | legacy | index
 	NBlobs       int    `json:"nblobs"`
-	DeclManifest string `json:"declared_manifest_size"` // true | over
-	DeclBlob     string `json:"declared_blob_size"`     // true | over
-	Real         string `json:"real,omitempty"`         // big-manifest | big-blob | cap-manifest | cap-blob
-	Special      string `json:"special,omitempty"`      // no-subject-layer-is-s1 | subject-s2-layer-is-s1
+	DeclManifest string `json:"declared_manifest_size"`    // true | over
+	DeclBlob     string `json:"declared_blob_size"`        // true | over
+	Real         string `json:"real,omitempty"`            // big-manifest | big-blob | cap-manifest | cap-blob
+	Special      string `json:"special,omitempty"`         // no-subject-layer-is-s1 | subject-s2-layer-is-s1
+	BlobMT       string `json:"blob_media_type,omitempty"` // media type the blobs declare; "" = JWS
+}
+
+// media types a hostile blob may declare besides the two envelope types
+var otherBlobTypes = []struct{ label, mt string }{
+	{"octet-stream", "application/octet-stream"}, {"custom-envelope", "application/vnd.example.envelope+json"}, {"cose-uppercase", "APPLICATION/COSE"},
 }
 
 func hostileCases() []hostileCase {
@@ -1439,6 +1510,24 @@ func hostileCases() []hostileCase {
 	for _, format := range []string{"image", "legacy"} {
 		for _, real := range []string{"big-manifest", "cap-manifest", "big-blob", "cap-blob"} {
 			cs = append(cs, hostileCase{Kind: "hostile", Store: "memory", Format: format, NBlobs: 1, DeclManifest: "true", DeclBlob: "true", Real: real, Name: format + "-real-" + real})
+		}
+	}
+	// the blob declares another media type than JWS: the caps and the blob count do not depend on it
+	for ti, t := range otherBlobTypes {
+		for _, format := range []string{"image", "legacy"} {
+			for _, db := range []string{"true", "over"} {
+				for _, n := range []int{1, 2} {
+					if n == 2 && db == "over" {
+						continue
+					}
+					cs = append(cs, hostileCase{Kind: "hostile", Store: "memory", Format: format, NBlobs: n, DeclManifest: "true", DeclBlob: db, BlobMT: t.mt,
+						Name: fmt.Sprintf("%s-%dblobs-blobsize-%s-blobtype-%s", format, n, db, t.label)})
+				}
+			}
+			if (ti+len(format))%2 == 0 || format == "image" && ti == 0 { // really oversized blobs are costly: a covering subset
+				cs = append(cs, hostileCase{Kind: "hostile", Store: "memory", Format: format, NBlobs: 1, DeclManifest: "true", DeclBlob: "true", Real: "big-blob", BlobMT: t.mt,
+					Name: format + "-real-big-blob-blobtype-" + t.label})
+			}
 		}
 	}
 	return cs
@@ -1472,6 +1561,10 @@ func runHostile(c hostileCase) (vs []viol, outcome string, recorded []string, ev
 		return nil, "", nil, 0, err
 	}
 	// blobs
+	blobMT := c.BlobMT
+	if blobMT == "" {
+		blobMT = mtJWS
+	}
 	var blobs []ocispec.Descriptor
 	var blobBytes [][]byte
 	for k := 0; k < c.NBlobs; k++ {
@@ -1482,7 +1575,7 @@ func runHostile(c hostileCase) (vs []viol, outcome string, recorded []string, ev
 		case "cap-blob":
 			b = append(b, make([]byte, capBlob-len(b))...)
 		}
-		d := descOf(mtJWS, b)
+		d := descOf(blobMT, b)
 		if err := pushRaw(inner, d, b); err != nil {
 			return nil, "", nil, 0, err
 		}
@@ -1639,6 +1732,10 @@ func runHostile(c hostileCase) (vs []viol, outcome string, recorded []string, ev
 			return "hostile: exactly at the cap accepted (not judged)"
 		default: // positive control: a well-formed hand-written Notation manifest round-trips
 			switch {
+			case err != nil && c.BlobMT != "":
+				// whether a blob of another media type than the envelope types is served is not fixed by the statement
+				recorded = append(recorded, "recorded:fetch/error:hand-written-blob-of-another-media-type")
+				return "hostile: control with another blob media type refused (not judged)"
 			case err != nil && c.Format == "legacy":
 				// a legacy artifact manifest is a foreign referrer in the quantifier: support for it is recorded
 				recorded = append(recorded, "recorded:fetch/error:hand-written-legacy")
@@ -1647,8 +1744,8 @@ func runHostile(c hostileCase) (vs []viol, outcome string, recorded []string, ev
 				add("fetch/error:hand-written-"+c.Format, "FetchSignatureBlob of a well-formed %s Notation manifest failed: %v", c.Format, err)
 			case !bytes.Equal(b, blobBytes[0]):
 				add("fetch/bytes-differ", "hand-written %s manifest: %d bytes returned, %d stored", c.Format, len(b), len(blobBytes[0]))
-			case bd.MediaType != mtJWS:
-				add("fetch/media-type-differs", "hand-written %s manifest: media type %q, stored %q", c.Format, bd.MediaType, mtJWS)
+			case bd.MediaType != blobMT:
+				add("fetch/media-type-differs", "hand-written %s manifest: media type %q, stored %q", c.Format, bd.MediaType, blobMT)
 			default:
 				return "hostile: control accepted with identical bytes"
 			}
@@ -1697,6 +1794,8 @@ func runHostile(c hostileCase) (vs []viol, outcome string, recorded []string, ev
 		if o2 != outcome {
 			outcome += " / listed: " + strings.TrimPrefix(o2, "hostile: ")
 		}
+	case !mustRefuse && !atCap && c.BlobMT != "":
+		recorded = append(recorded, "recorded:list/manifest-with-blob-of-another-media-type-not-listed")
 	case !mustRefuse && !atCap && c.Format == "legacy":
 		recorded = append(recorded, "recorded:list/legacy-notation-artifact-manifest-not-listed")
 	case !mustRefuse && !atCap:
@@ -1853,6 +1952,11 @@ func main() {
 	explore(r, "loose+observed", 2+dObs)
 	explore(r, "paged+observed", 2+dObs)
 	explore(r, "disk", dDisk)
+	explore(r, "nested", 2+dObs)
+	explore(r, "nested+observed", 2)
+	for _, k := range []string{"memory", "disk", "nested", "loose", "paged"} {
+		explorePiles(r, k, 21)
+	}
 	exploreRetry(r, "memory", 3+dObs)
 	exploreRetry(r, "disk", 3)
 	exploreRetry(r, "disk+observed", 2+dObs)
